@@ -79,6 +79,42 @@ def c01_ladder(res):
             res.fail("correspondence", "C01: _ladder_pairs(1..%d) = %r differs from the literal Lean model %r" % (n, got, want), dict(type="ladder", n=n))
 
 
+def kappa_window_games(res, rng, n):
+    """Directed stratum for the variance floor max(1 - share*delta, kappa).  With a constant gamma callback delta is
+    proportional to the constant, so the constant that puts a chosen player's factor at a chosen place relative to kappa
+    (just above, just below, a small positive fraction of it, zero, negative) is computed from the implementation's own
+    response at gamma = 1.  Random gammas essentially never land in the window (0, kappa), which is 1e-4 wide."""
+    out = []
+    tries = 0
+    while len(out) < n and tries < 6 * n:
+        tries += 1
+        g = gen_game(rng, stratum=rng.choice(["typical", "typical", "equalsize", "identical"]), options=False,
+                     n=rng.randint(2, 5), maxsize=3)
+        g["gamma"] = ("C", 1.0)
+        g["tau"] = 0.0 if rng.random() < 0.5 else g["tau"]
+        impl = run_impl_rate(g)
+        if impl[0] != "OK":
+            continue
+        flat_prior = [ms for t in g["teams"] for ms in t]
+        cands = []
+        for t in impl[1]:
+            for (slot, mu_, sg_) in t:
+                pm, ps = flat_prior[slot]
+                infl = math.sqrt(ps * ps + g["tau"] * g["tau"])
+                f1 = (sg_ / infl) ** 2
+                if 0 < 1 - f1 < 1 and f1 > g["kappa"] * 1.5:
+                    cands.append(1 - f1)
+        if not cands:
+            continue
+        sd = rng.choice(cands)                      # share * delta of one player at gamma = 1
+        target = g["kappa"] * rng.choice([0.5, 0.5, 0.99, 1.01, 1e-3, 2.0, 0.0, -1.0, -50.0])
+        g2 = dict(g)
+        g2["gamma"] = ("C", (1 - target) / sd)
+        res.count("kappa_window_target_%s" % ("in_window" if 0 < target < g["kappa"] else "at_or_below_zero" if target <= 0 else "above_kappa"))
+        out.append(g2)
+    return out
+
+
 def c01(res):
     rng = random.Random(res.seed)
     c01_sum_q(res, rng)
@@ -86,6 +122,7 @@ def c01(res):
         c01_ladder(res)
     n = size(res, 2500, 12000)
     games = [gen_game(rng) for _ in range(n)]
+    games += kappa_window_games(res, random.Random(res.seed * 31 + 5 + res.shard), size(res, 150, 500))
     # every weak order of n <= 4 (quick) / n <= 5 (thorough) teams, sharded
     top = 4 if res.tier == "quick" else 5
     k = 0
@@ -128,11 +165,27 @@ register("C01", c01, c01_item,
 def c02_one(res, g, drv_line_out=None):
     model = build_model(g)
     teams = build_teams(model, g)
+    shared = g.get("_shared_ids")
+    if shared:
+        # distinct rating objects carrying one id (clones of a template: deepcopy keeps the id; a guest account): the names
+        # (unique here) and the object identities still tell the players apart
+        flat = [p for t in teams for p in t]
+        if shared == "first-players":
+            for t in teams:
+                t[0].id = teams[0][0].id
+        elif shared == "everyone":
+            for p in flat:
+                p.id = flat[0].id
+        elif shared == "team-mates":
+            for t in teams:
+                for p in t:
+                    p.id = t[0].id
+        res.count("shared_id_games_" + shared)
     passed = [list(t) for t in teams]
     snap = [[(p.id, p.name, p.mu, p.sigma) for p in t] for t in teams]
     inp = dict(type="game", game=g)
     try:
-        out = call_rate(model, teams, g)
+        out = call_rate(model, teams, g, reentrant=False) if shared else call_rate(model, teams, g)
     except Exception as e:  # noqa: BLE001
         res.fail("property", "C02: valid call raised %s: %s" % (type(e).__name__, e), inp)
         return
@@ -141,10 +194,12 @@ def c02_one(res, g, drv_line_out=None):
             [len(t) for t in out], [len(t) for t in snap]), inp)
         return
     flat_index = {}
+    name_index = {}
     k = 0
     for t in snap:
         for s in t:
             flat_index[s[0]] = k
+            name_index[s[1]] = k
             k += 1
     for i, t in enumerate(out):
         for j, p in enumerate(t):
@@ -167,7 +222,7 @@ def c02_one(res, g, drv_line_out=None):
         res.count("zero_sigma_member_games")
     # no object and no id appears twice in the result
     objs = [id(p) for t in out for p in t]
-    ids_ = [p.id for t in out for p in t]
+    ids_ = [p.name for t in out for p in t] if shared else [p.id for t in out for p in t]
     if len(set(objs)) != len(objs) or len(set(ids_)) != len(ids_):
         res.fail("property", "C02: a player appears twice in the result (and another is dropped)", inp)
         return
@@ -184,7 +239,7 @@ def c02_one(res, g, drv_line_out=None):
                     return
     # numbers: the posterior of *that* player (model, slot by slot)
     if drv_line_out is not None:
-        impl = ("OK", [[(flat_index[p.id], p.mu, p.sigma) for p in t] for t in out])
+        impl = ("OK", [[(name_index[p.name] if shared else flat_index[p.id], p.mu, p.sigma) for p in t] for t in out])
         mm = compare_rate(g, impl, parse_rate_out(drv_line_out))
         res.traces += 1
         if mm:
@@ -201,6 +256,10 @@ def c02_games(res, rng, n):
             for j in range(len(t)):
                 t[j] = (t[j][0] + 0.37 * k * g["beta"] / 4, t[j][1] * (1 + 0.011 * k))
                 k += 1
+        if rng.random() < 0.15:
+            g["_shared_ids"] = rng.choice(["first-players", "first-players", "everyone", "team-mates"])
+            if rng.random() < 0.5:
+                g["ls"] = True          # the sigma cap is looked up per player
         if rng.random() < 0.25:
             # brand-new players everywhere (all priors identical), equal team sizes, tie-heavy outcome:
             # only ids / names / object identity tell the slots apart
@@ -384,7 +443,10 @@ def c03(res):
     allgames = []
     n = size(res, 220, 1200)
     for _ in range(n):
-        g = gen_game(rng, options=False)
+        # half of the games carry model-level limit_sigma and per-call tau / limit_sigma: the outcome encoding must not interact with them
+        g = gen_game(rng, options=rng.random() < 0.5)
+        if g["tauopt"] is not None or g["lsopt"] is not None or g["ls"]:
+            res.count("games_with_options")
         nt = len(g["teams"])
         dense = random_weak_order(rng, nt)
         res.case(dict(game=g, dense=dense))
@@ -816,6 +878,11 @@ def c06_league(res, rng, kind, ngames, games):
             k = rng.randrange(nplayers)
             pool[k] = model.rating(*default)   # a newcomer replaces a player
             acc[k] = pool[k].sigma ** 2
+        if rng.random() < 0.12:
+            # the operator re-tunes the running system: the public attribute is re-assigned, later games must use it
+            tau = rng.choice([0.0, tau / 2, tau * 2 + 1e-3 * beta])
+            model.tau = tau
+            res.count("league_tau_retuned")
         nt = rng.randint(2, min(5, nplayers // 2))
         ids = rng.sample(range(nplayers), rng.randint(nt, min(nplayers, nt * 3)))
         teams_ids = [[] for _ in range(nt)]
@@ -881,6 +948,7 @@ def c06_league_model(res, rng):
         ng = rng.randint(2, 8)
         toks.append(str(ng))
         ok = True
+        noisy = False
         for _g in range(ng):
             kind = rng.choice(KINDS)
             nt = rng.randint(2, min(4, npl // 2))
@@ -890,6 +958,8 @@ def c06_league_model(res, rng):
                 tid[k % nt].append(pid)
             dense = random_weak_order(rng, nt)
             mode = rng.choice(["R", "S", "N"])
+            if IS_TM[kind] and mode != "N" and len(set(dense)) < nt:
+                noisy = True        # a Thurstone-Mosteller tie: wt amplifies rounding by 1e-13/t (C17), and the league feeds it back
             tauopt = None if rng.random() < 0.6 else rng.choice([0.0, beta / 10])
             lsopt = None if rng.random() < 0.7 else (rng.random() < 0.5)
             toks += [kind, "-" if tauopt is None else core.f2h(tauopt), "-" if lsopt is None else ("1" if lsopt else "0"), mode,
@@ -912,14 +982,15 @@ def c06_league_model(res, rng):
                     pool[pid] = p
         if ok:
             lines.append("LEAGUE " + " ".join(toks))
-            finals.append((beta, init, [(p.mu, p.sigma) for p in pool]))
+            finals.append((beta, init, [(p.mu, p.sigma) for p in pool], 2e-5 if noisy else 2e-7))
     outs = Driver().run(lines)
-    for (beta, init, fin), o in zip(finals, outs):
+    for (beta, init, fin, tol), o in zip(finals, outs):
         want = [tuple(core.h2f(x) for x in tok.split(":")) for tok in o.split(" ")[1:]]
         res.traces += 1
         res.count("league_machine_comparisons")
         for pid, (a, b) in enumerate(zip(fin, want)):
-            if not (close(a[0], b[0], 2e-7, beta) and close(a[1], b[1], 2e-7, init[pid][1])):
+            # doubles against doubles over a fed-back history; the same composition is compared without rounding by exact.exact_leagues
+            if not (close(a[0], b[0], tol, beta) and close(a[1], b[1], tol, init[pid][1])):
                 res.fail("correspondence", "C06: after a league of fed-back games player %d holds %r on the implementation, %r on the Lean league machine" % (pid, a, b), None)
                 break
 
@@ -937,7 +1008,7 @@ def c06(res):
     games = []
     n = size(res, 2500, 15000)
     for k in range(n):
-        stratum = rng.choice(["typical", "wide", "mismatch", "mismatch", "mismatch", "corners", "identical"])
+        stratum = rng.choice(["typical", "wide", "mismatch", "mismatch", "mismatch", "corners", "identical", "lopsided", "lopsided", "lowedge", "bigsum"])
         kind = rng.choice(KINDS + ["TMF", "TMP"])
         g = gen_game(rng, kind=kind, stratum=stratum)
         if rng.random() < 0.25:
@@ -1028,7 +1099,7 @@ def c07(res):
     rng = random.Random(res.seed)
     games = []
     for k in range(size(res, 2500, 15000)):
-        g = gen_game(rng, stratum=rng.choice(["typical", "wide", "mismatch", "identical", "equalsize", "corners", "lopsided"]))
+        g = gen_game(rng, stratum=rng.choice(["typical", "wide", "mismatch", "identical", "equalsize", "corners", "lopsided", "bigsum"]))
         if rng.random() < 0.3:
             # equal team variances
             s = g["teams"][0][0][1]
@@ -1135,7 +1206,7 @@ def c15_one(res, g):
     """per-call tau / limit_sigma vs constructor setting: bit-identical"""
     inp = dict(type="game", game=g)
     beta = g["beta"]
-    for t in (0.0, 1e-9 * beta, g["tau"], 7.5 * beta, 0, 1, 10):
+    for t in (0.0, 1e-9 * beta, g["tau"], 7.5 * beta, 0, 1, 10, 25.0 / 300.0):
         for b in (True, False, None):
             for model_tau in (g["tau"], 0.0, 3 * beta):
                 for model_ls in (False, True):
@@ -1151,6 +1222,46 @@ def c15_one(res, g):
                         res.fail("property", "C15: rate(tau=%r, limit_sigma=%r) on a model with tau=%r, limit_sigma=%r differs from a model constructed with those settings: %r" % (
                             t, b, model_tau, model_ls, p_first(A, B)), dict(type="c15", game=ga, other=gb))
                         return
+    # (a) the constructor's settings re-assigned on the public attributes afterwards, arguments omitted;
+    # (b) the documented positional form rate(teams, ranks, scores, tau, limit_sigma);
+    # (c) a model whose default mu is not 25, with tau exactly the library default 25/300
+    import hashlib as _h
+    sel = int(_h.sha1(repr(g["teams"]).encode()).hexdigest()[:6], 16)
+    t = (0.0, 1e-9 * beta, g["tau"], 7.5 * beta, 25.0 / 300.0)[sel % 5]
+    b = (True, False)[sel // 5 % 2]
+    model_tau = (g["tau"], 0.0, 3 * beta)[sel // 10 % 3]
+    model_ls = (False, True)[sel // 30 % 2]
+    target = dict(g); target.update(tau=t, ls=b, tauopt=None, lsopt=None)
+    try:
+        want = impl_teams(target)
+        m = build_model(dict(g, tau=model_tau, ls=model_ls))
+        m.predict_win(build_teams(m, g))
+        m.tau = t; m.limit_sigma = b
+        kw = {}
+        if g["oc"][0] == "R": kw["ranks"] = list(g["oc"][1])
+        elif g["oc"][0] == "S": kw["scores"] = list(g["oc"][1])
+        got = [[(p.mu, p.sigma) for p in tm] for tm in m.rate(build_teams(m, g), **kw)]
+        res.count("settings_reassigned_after_construction")
+        if got != want:
+            res.fail("property", "C15: a model constructed with tau=%r, limit_sigma=%r whose public attributes were then set to tau=%r, limit_sigma=%r "
+                     "(arguments omitted) differs from a model constructed with those settings: %r" % (model_tau, model_ls, t, b, first_diff(got, want)),
+                     dict(type="c15", game=dict(g, tau=model_tau, ls=model_ls), other=target)); return
+        m2 = build_model(dict(g, tau=model_tau, ls=model_ls))
+        pos = m2.rate(build_teams(m2, g), kw.get("ranks"), kw.get("scores"), t, b)
+        res.count("options_passed_positionally")
+        if [[(p.mu, p.sigma) for p in tm] for tm in pos] != want:
+            res.fail("property", "C15: rate(teams, ranks, scores, %r, %r) with the options passed by position differs from a model constructed with those settings" % (t, b),
+                     dict(type="c15", game=dict(g, tau=model_tau, ls=model_ls, tauopt=t, lsopt=b), other=target)); return
+        for mm_ in (1500.0, 0.5):
+            A = impl_teams(dict(g, model_mu=mm_, tau=t, ls=b, tauopt=None, lsopt=None))
+            B = impl_teams(dict(g, model_mu=mm_, tau=model_tau, ls=model_ls, tauopt=t, lsopt=b))
+            res.count("models_with_other_default_mu")
+            if A != want or B != want:
+                res.fail("property", "C15: on a model whose default mu is %r, tau=%r / limit_sigma=%r given to the constructor (%s) or per call (%s) differ from the model with default mu 25"
+                         % (mm_, t, b, "differs" if A != want else "same", "differs" if B != want else "same"),
+                         dict(type="c15", game=dict(g, model_mu=mm_, tau=t, ls=b, tauopt=None, lsopt=None), other=target)); return
+    except Exception as e:  # noqa: BLE001
+        res.fail("property", "C15: valid call raised %s" % type(e).__name__, inp); return
     # omitted = the model's own
     for model_ls in (False, True):
         ga = dict(g); ga.update(ls=model_ls, tauopt=None, lsopt=None)
